@@ -8,7 +8,7 @@ class C25(dfir.DfirSpec):
     theorems = ["C25_frame", "C25_settled_reads", "C25_slot_semantics", "C25_real_schedule", "C25_loop_schedule", "C25_settled_loop_schedule"]
     modes = ("ticks", "avail")
     level = "other"
-    explanation = "Not category proof: that the partitioner ALWAYS produces a schedule with the producer before every referrer, access groups in order, referrers before the pipe consumer (clause 6 of engine E6's WellFormed) is E6's open item (C18 is translation validation); here the clause is an executable check (ModelRefs.chain_ok, frame part proved sound) evaluated on the real schedule of every loop-free C25 program on every run, and C25_real_schedule states settled reads on any schedule that passes it. For programs with loop blocks (references crossing a loop boundary) the same check runs on the blocks in program order descending into the loop gates (refs_ordered_l, C25_loop_schedule: blocks that do not use the slot leave it alone); the settled-reads equation itself is proved for loop-free schedules only. Closures with more than one reference and hydro_lang::handoff_ref are not modelled."
+    explanation = "Not category proof: that the partitioner ALWAYS produces a schedule with the producer before every referrer, access groups in order, referrers before the pipe consumer (clause 6 of engine E6's WellFormed) is E6's open item (C18 is translation validation); here the clause is an executable check (ModelRefs.chain_ok, frame part proved sound) evaluated on the real schedule of every loop-free C25 program on every run, and C25_real_schedule states settled reads on any schedule that passes it. For programs with loop blocks (references crossing a loop boundary) the same check runs on the blocks in program order descending into the loop gates (refs_ordered_l, C25_loop_schedule: blocks that do not use the slot leave it alone); and the settled-reads equation holds at instruction granularity for schedules with loop blocks (C25_settled_loop_schedule: after an instruction that uses the slot -- a block or a whole loop -- instructions passing the executable frame test leave it as it was, whatever their gates do). Closures with more than one reference and hydro_lang::handoff_ref are not modelled."
     assumptions = [
         "block order and subgraph membership come from the real partitioner via meta_graph(); the ordering guarantee "
         "itself is property C17/C18 (engine E6)",
